@@ -615,8 +615,25 @@ def conc_pair_shapes(family):
     return out
 
 
+def conc_triple_shapes(family):
+    menu = conc_obj_menu() if family == "obj" else conc_meta_menu()
+    states = conc_obj_states() if family == "obj" else conc_meta_states()
+    out = []
+    n = len(menu)
+    for si, st in enumerate(states):
+        for i in range(n):
+            for j in range(i, n):
+                for k in range(j, n):
+                    out.append((si, st, (i, j, k), [menu[i], menu[j], menu[k]]))
+    return out
+
+
 def gen_conc_pair(seed, family, shape, mp=False):
-    si, st, i, j, a, b = shape
+    if len(shape) == 4:
+        si, st, idx, calls = shape
+    else:
+        si, st, i, j, a, b = shape
+        idx, calls = (i, j), [a, b]
     rng = rng_for(seed)
     cfg = gen_cfg(rng, simple=True)
     knobs = gen_conc_knobs(rng, mp=mp)
@@ -633,8 +650,9 @@ def gen_conc_pair(seed, family, shape, mp=False):
         mcontents = [[5, 1], [40, 2], [4500, 3]]
     return {"seed": seed, "engine": "conc", "family": family, "cfg": cfg, "knobs": knobs, "pids": pids,
             "formats": formats, "contents": contents, "mcontents": mcontents, "setup": [dict(o) for o in st],
-            "tasks": [[dict(a)], [dict(b)]], "stagger": [0, rng.choice([0, 0, 3, 15, 40])],
-            "shape": [si, i, j]}
+            "tasks": [[dict(c)] for c in calls],
+            "stagger": [0] + [rng.choice([0, 0, 3, 15, 40]) for _ in calls[1:]],
+            "shape": [si] + list(idx)}
 
 
 # ------------------------------------------------------------------------------------------
